@@ -18,7 +18,8 @@ EXPLANATION = (
     "never write through their receiver/arguments (interprocedural effect analysis); (D3) the symmetrised divergence "
     "is syntactically invariant under swapping its two distribution arguments; (D4) subdistribution's range and "
     "duplicate guards dominate the projection loop, the projected key follows the listed qubit order and colliding "
-    "outcomes are accumulated, not overwritten; (D5) saver/loader key agreement."
+    "outcomes are accumulated, not overwritten; (D5) saver/loader key agreement. "
+    "(D5k) writer and reader agree on the granularity at which the notation of a saved key is chosen (per key vs once per dictionary)."
 )
 RULE_TEXT = "instances = constructor stores, validity conjuncts, (function, parameter) purity pairs, guards, record keys; non-trivial = an obligation was evaluated; distinct by (rule, construct)"
 ASSUMPTIONS = [
